@@ -147,6 +147,7 @@ func c04(c *Ctx) {
 		o.ExpectEmptyK("IO.v", "R_reads_violation", "violation", "an instruction does not report a register of an input operand (or an address register of a memory output) as read, or a register output as written", "reads")
 	}
 	o.Plan.Stats["reads_writes_instances"] = len(ioRows)
+	c04hw(c, d, ctors, names, opcIndexOf)
 	o.Stage(files...)
 	o.Plan.Rule = "all rows of the form table (x86/zoptab.go dumped through the verif overlay), exhaustively; a sample of rows is written out as cases"
 	o.Plan.Stats["forms"] = n
